@@ -274,3 +274,66 @@ Example C03lbl_example_dangling_call_target :
   | _ => False
   end.
 Proof. vm_compute. repeat split; reflexivity. Qed.
+
+(* (3d) ... and the function the label owns has its ENTRY at that node: the record `fid` of the finished
+   graph exists and its `fentry` is the index k of the node that carries the label (the function entry
+   created in front of the next instruction after the label).  Proofs/FnEntryProofs.v: the label map and
+   the function records are appended together by the markup pass (C11_label_fn_entry), and no other node
+   carries the label (the uniqueness clause of `name_on_instruction`). *)
+From RV.Proofs Require Import FnEntryProofs.
+Definition C03lbl_call_target_function_entry_statement : Prop :=
+  forall picks ns g, gen_full_cfg picks ns = Ok (SOk g) ->
+    forall m lab, In m ns -> calls_to m = Some lab ->
+    forall p q, label_position ns (wv lab) = Some p -> next_instruction_after ns p = Some q ->
+      exists hs h0 k ck fid,
+        cfg_new ns (Some hs) = inr h0 /\ name_on_instruction ns (Some hs) h0 (wv lab) q k /\
+        node_at g k ck /\ is_function_entry (cn ck) = true /\ mem_name (wv lab) (clabels ck) = true /\
+        assoc_fn (wv lab) (glabelfn g) = Some fid /\
+        exists f, nth_opt (gfuncs g) fid = Some f /\ fentry f = k.
+Theorem C03lbl_call_target_function_entry : C03lbl_call_target_function_entry_statement.
+Proof. exact call_target_function_entry. Qed.
+Check C03lbl_call_target_function_entry : C03lbl_call_target_function_entry_statement.
+Print Assumptions C03lbl_call_target_function_entry.
+
+(* the hypotheses hold for the call `jal f` of the example (node 2 of the source; `f:` is node 5, its next
+   instruction node 8), and the conclusion as computed: `f` owns function 0, whose entry is index 4, the
+   function entry that carries f (and g) *)
+Example C03lbl_example_function_entry :
+  match parse_from_text false ex_text with
+  | Ok (ns, _) =>
+      (exists m lab, In m ns /\ calls_to m = Some lab /\ wv lab = «"f"» /\
+                     label_position ns (wv lab) = Some 5%nat /\ next_instruction_after ns 5 = Some 8%nat) /\
+      match gen_full_cfg [] ns with
+      | Ok (SOk g) =>
+          assoc_fn «"f"» (glabelfn g) = Some 0%nat /\
+          option_map fentry (nth_opt (gfuncs g) 0) = Some 4%nat /\
+          option_map (fun c => (is_function_entry (cn c), mem_name «"f"» (clabels c))) (nth_opt (gnodes g) 4) =
+            Some (true, true) /\
+          map (fun c => mem_name «"f"» (clabels c)) (gnodes g) = [false; false; false; false; true; false; false]
+      | _ => False
+      end
+  | _ => False
+  end.
+Proof.
+  vm_compute. split; [|repeat split; reflexivity].
+  eexists. eexists. split; [right; right; left; reflexivity|]. repeat split; reflexivity.
+Qed.
+
+(* the theorem applied to the example: whatever the picks, the function owned by `f` starts at the node
+   that carries `f` *)
+Example C03lbl_example_function_entry_applied :
+  forall picks ns errs g, parse_from_text false ex_text = Ok (ns, errs) -> gen_full_cfg picks ns = Ok (SOk g) ->
+    exists k ck fid f, node_at g k ck /\ mem_name «"f"» (clabels ck) = true /\
+                       assoc_fn «"f"» (glabelfn g) = Some fid /\
+                       nth_opt (gfuncs g) fid = Some f /\ fentry f = k.
+Proof.
+  intros picks ns errs g Hp Hg.
+  assert (Hns : exists m lab, In m ns /\ calls_to m = Some lab /\ wv lab = «"f"» /\
+                  label_position ns (wv lab) = Some 5%nat /\ next_instruction_after ns 5 = Some 8%nat).
+  { vm_compute in Hp. inversion Hp; subst ns. eexists. eexists.
+    split; [right; right; left; reflexivity|]. vm_compute. repeat split; reflexivity. }
+  destruct Hns as [m [lab [Hin [Hc [Hw [Pf Qf]]]]]].
+  destruct (C03lbl_call_target_function_entry picks ns g Hg m lab Hin Hc _ _ Pf Qf)
+    as [hs [h0 [k [ck [fid [_ [_ [Hk [_ [Hm [Ha [f [Hf He]]]]]]]]]]]]].
+  rewrite Hw in Hm, Ha. exists k, ck, fid, f. auto.
+Qed.
